@@ -1,55 +1,203 @@
 (** Pins/C06.v — the statements of the C06 theorems, pinned. *)
-From PdfV Require Import Base.Prelude Gen.Generated Crypt.Rc4 Crypt.Rc4Proofs Crypt.Model Crypt.Spec Crypt.Tables Crypt.Proofs Crypt.KdfProofs Properties.C06.
+From PdfV Require Import Base.Prelude Gen.Generated Crypt.Rc4 Crypt.Rc4Proofs Crypt.Rc4Spec Crypt.Model Crypt.Spec Crypt.Tables Crypt.Proofs Crypt.KdfProofs Crypt.Proofs56 Crypt.SafeProofs Properties.C06.
 
 Check C06_rc4_involution : forall k m, 1 <= lenN k <= 256 ->
   exists c, rc4 k m = Ok c /\ rc4 k c = Ok m /\ length c = length m.
 Check C06_rc4_bad_key : forall k m, lenN k = 0 \/ 256 < lenN k -> rc4 k m = Panic 601.
+Check C06_rc4_is_rc4 : forall k m, 1 <= lenN k <= 256 -> rc4 k m = Ok (rc4_spec k m).
 Check C06_pkcs7 : forall m, pkcs7_unpad (pkcs7_pad m) = Some m.
 Check C06_tables : PADDING = spec_pad /\ crypt_salt = salt_tag /\
   crypt_constants = [1; 19; 3; 50; 4; 32; 16;  16; 3; 50; 2; 1; 20;  1; 40; 2; 8; 4; 6; 5; 2; 6;  4; 48; 48; 127; 64; 32; 64; 16;
-                     3; 16; 32; 32; 3; 2; 5; 16;  16; 16; 16] /\
+                     3; 16; 32; 32; 3; 2; 5; 16;  16; 16; 16;  32; 32] /\
   crypt_meta_bytes = [255; 255; 255; 255] /\
   crypt_r56_slices = [(0, 32); (32, 40); (40, 48); (0, 32); (32, 40); (40, 48)] /\
-  crypt_kdf_arms = [(32, 256); (48, 384); (64, 512)].
+  crypt_kdf_arms = [(32, 256); (48, 384); (64, 512)] /\
+  crypt_identity_name = identity_name.
+Check C06_from_password_rc4_refines : forall MD5, (forall x, length (MD5 x) = 16%nat) ->
+  forall R bits n m ms d id0 pass, 2 <= R <= 4 -> bits / 8 = n -> 1 <= n <= 16 ->
+  from_password_rc4 (fun x => Ok (MD5 x)) R bits m ms d id0 pass =
+    match alg6 MD5 R n pass (d_o d) (d_u d) (d_p d) id0 (d_em d) with
+    | Some _ => Ok (decoder_with (alg2_full MD5 R n pass (d_o d) (d_p d) id0 (d_em d) ++ []) n m ms (d_em d || (d_v d <? 4)%Z))
+    | None =>
+        let upw := if R =? 2 then rc4_raw (owner_key MD5 R n pass) (d_o d)
+                   else rc4_passes (rev (xkeys (owner_key MD5 R n pass) 0 20)) (d_o d) in
+        match alg6 MD5 R n upw (d_o d) (d_u d) (d_p d) id0 (d_em d) with
+        | Some _ => Ok (decoder_with (alg2_full MD5 R n upw (d_o d) (d_p d) id0 (d_em d) ++ []) n m ms (d_em d || (d_v d <? 4)%Z))
+        | None => Err E_INVALID_PASSWORD
+        end
+    end.
 Check C06_open_user_rc4 : forall MD5 SHA256 SHA384 SHA512 AESE AESD PREP, (forall x, length (MD5 x) = 16%nat) ->
-  forall fuel d id0 upw R n m tail, std_rc4_dict d R n m ->
+  forall fuel d id0 upw R n m ms tail, std_rc4_dict d R n m ms ->
   let fk := alg2 MD5 R n upw (d_o d) (d_p d) id0 (d_em d) in
   d_u d = u_entry MD5 R fk id0 tail ->
   opens_with (from_password (fun x => Ok (MD5 x)) (fun x => Ok (SHA256 x)) (fun x => Ok (SHA384 x)) (fun x => Ok (SHA512 x))
                 (fun k iv x => Ok (AESE k iv x)) (fun k iv x => Ok (AESD k iv x)) (fun x => Ok (PREP x)) fuel d id0 upw)
-             n fk m (d_em d || (d_v d <? 4)%Z).
+             n fk m ms (d_em d || (d_v d <? 4)%Z).
 Check C06_open_owner_rc4 : forall MD5 SHA256 SHA384 SHA512 AESE AESD PREP, (forall x, length (MD5 x) = 16%nat) ->
-  forall fuel d id0 upw opw R n m tail, std_rc4_dict d R n m ->
+  forall fuel d id0 upw opw R n m ms tail, std_rc4_dict d R n m ms ->
   d_o d = alg3 MD5 R n opw upw ->
   let fk := alg2 MD5 R n upw (d_o d) (d_p d) id0 (d_em d) in
   d_u d = u_entry MD5 R fk id0 tail ->
   alg6 MD5 R n opw (d_o d) (d_u d) (d_p d) id0 (d_em d) = None ->
   opens_with (from_password (fun x => Ok (MD5 x)) (fun x => Ok (SHA256 x)) (fun x => Ok (SHA384 x)) (fun x => Ok (SHA512 x))
                 (fun k iv x => Ok (AESE k iv x)) (fun k iv x => Ok (AESD k iv x)) (fun x => Ok (PREP x)) fuel d id0 opw)
-             n fk m (d_em d || (d_v d <? 4)%Z).
+             n fk m ms (d_em d || (d_v d <? 4)%Z).
 Check C06_wrong_pw_rc4 : forall MD5 SHA256 SHA384 SHA512 AESE AESD PREP, (forall x, length (MD5 x) = 16%nat) ->
-  forall fuel d id0 pw R n m, std_rc4_dict d R n m ->
+  forall fuel d id0 pw R n m ms, std_rc4_dict d R n m ms ->
   alg6 MD5 R n pw (d_o d) (d_u d) (d_p d) id0 (d_em d) = None ->
   alg7 MD5 R n pw (d_o d) (d_u d) (d_p d) id0 (d_em d) = None ->
   from_password (fun x => Ok (MD5 x)) (fun x => Ok (SHA256 x)) (fun x => Ok (SHA384 x)) (fun x => Ok (SHA512 x))
                 (fun k iv x => Ok (AESE k iv x)) (fun k iv x => Ok (AESD k iv x)) (fun x => Ok (PREP x)) fuel d id0 pw
   = Err E_INVALID_PASSWORD.
 Check C06_accepted_iff_rc4 : forall MD5 SHA256 SHA384 SHA512 AESE AESD PREP, (forall x, length (MD5 x) = 16%nat) ->
-  forall fuel d id0 pw R n m, std_rc4_dict d R n m ->
+  forall fuel d id0 pw R n m ms, std_rc4_dict d R n m ms ->
   (exists dc, from_password (fun x => Ok (MD5 x)) (fun x => Ok (SHA256 x)) (fun x => Ok (SHA384 x)) (fun x => Ok (SHA512 x))
                 (fun k iv x => Ok (AESE k iv x)) (fun k iv x => Ok (AESD k iv x)) (fun x => Ok (PREP x)) fuel d id0 pw = Ok dc) <->
   (alg6 MD5 R n pw (d_o d) (d_u d) (d_p d) id0 (d_em d) <> None \/ alg7 MD5 R n pw (d_o d) (d_u d) (d_p d) id0 (d_em d) <> None).
-Check C06_plaintext : forall MD5 AESE AESD, (forall x, length (MD5 x) = 16%nat) ->
-  (forall k iv x, lenN x mod 16 = 0 -> AESD k iv (AESE k iv x) = x) -> (forall k iv x, lenN (AESE k iv x) = lenN x) ->
-  forall dc fk m num gen iv data, decoder_for dc fk m -> lenN iv = 16 ->
-  decrypt (fun x => Ok (MD5 x)) (fun k iv x => Ok (AESD k iv x)) dc num gen
-    (protect_bytes MD5 AESE m fk (k_enc_obj dc) (k_meta_obj dc) (negb (k_em dc)) num gen iv data) = Ok data.
-Check C06_exempt : forall MD5 AESD dc enc meta data,
-  (forall num gen, enc = Some (num, gen) ->
-     decrypt (fun x => Ok (MD5 x)) (fun k iv x => Ok (AESD k iv x)) (install dc enc meta) num gen data = Ok data) /\
-  (forall num gen, meta = Some (num, gen) -> k_em dc = false ->
-     decrypt (fun x => Ok (MD5 x)) (fun k iv x => Ok (AESD k iv x)) (install dc enc meta) num gen data = Ok data).
-Check C06_strf_refuted : ~ C06_full_statement.
 Check C06_kdf_refines : forall SHA256 SHA384 SHA512 AESE, (forall x, length (SHA256 x) = 32%nat) ->
   forall fuel pw salt u h, alg2b SHA256 SHA384 SHA512 AESE fuel pw salt u = Some h ->
   revision_6_kdf (fun x => Ok (SHA256 x)) (fun x => Ok (SHA384 x)) (fun x => Ok (SHA512 x)) (fun k iv x => Ok (AESE k iv x)) fuel pw salt u = Ok h.
+Check C06_from_password_56_refines : forall SHA256 SHA384 SHA512 AESE AESD PREP, (forall x, length (SHA256 x) = 32%nat) ->
+  forall fuel R m ms d pass p ue oe ru ro,
+  PREP pass = Some p -> lenN (d_u d) = 48 -> lenN (d_o d) = 48 ->
+  d_ue d = Some ue -> d_oe d = Some oe -> lenN ue mod 16 = 0 -> lenN oe mod 16 = 0 ->
+  alg2a_user SHA256 SHA384 SHA512 AESE AESD R fuel (pw56 p) (d_u d) ue = Some ru ->
+  (ru = None -> alg2a_owner SHA256 SHA384 SHA512 AESE AESD R fuel (pw56 p) (d_o d) (d_u d) oe = Some ro) ->
+  from_password_56 (fun x => Ok (SHA256 x)) (fun x => Ok (SHA384 x)) (fun x => Ok (SHA512 x))
+                (fun k iv x => Ok (AESE k iv x)) (fun k iv x => Ok (AESD k iv x)) (fun x => Ok (PREP x)) fuel R m ms d pass
+  = match ru with Some k => finish56 m ms d k | None => result56 m ms d ro end.
+Check C06_open_user_56 : forall MD5 SHA256 SHA384 SHA512 AESE AESD PREP,
+  (forall x, length (SHA256 x) = 32%nat) -> (forall x, length (SHA384 x) = 48%nat) -> (forall x, length (SHA512 x) = 64%nat) ->
+  (forall k iv x, lenN x mod 16 = 0 -> AESD k iv (AESE k iv x) = x) -> (forall k iv x, lenN (AESE k iv x) = lenN x) ->
+  forall fuel d id0 upw p R m ms hv hk vs ks fk oe,
+  std_56_dict d R m ms -> PREP upw = Some p ->
+  lenN vs = 8 -> lenN ks = 8 -> lenN fk = 32 ->
+  hash56 SHA256 SHA384 SHA512 AESE R fuel (pw56 p) vs [] = Some hv ->
+  hash56 SHA256 SHA384 SHA512 AESE R fuel (pw56 p) ks [] = Some hk ->
+  d_u d = alg8_U hv vs ks -> d_ue d = Some (alg8_UE AESE hk fk) ->
+  lenN (d_o d) = 48 -> d_oe d = Some oe -> lenN oe mod 16 = 0 ->
+  opens_with (from_password (fun x => Ok (MD5 x)) (fun x => Ok (SHA256 x)) (fun x => Ok (SHA384 x)) (fun x => Ok (SHA512 x))
+                (fun k iv x => Ok (AESE k iv x)) (fun k iv x => Ok (AESD k iv x)) (fun x => Ok (PREP x)) fuel d id0 upw)
+             32 fk m ms (em_of d).
+Check C06_open_owner_56 : forall MD5 SHA256 SHA384 SHA512 AESE AESD PREP,
+  (forall x, length (SHA256 x) = 32%nat) -> (forall x, length (SHA384 x) = 48%nat) -> (forall x, length (SHA512 x) = 64%nat) ->
+  (forall k iv x, lenN x mod 16 = 0 -> AESD k iv (AESE k iv x) = x) -> (forall k iv x, lenN (AESE k iv x) = lenN x) ->
+  forall fuel d id0 opw p R m ms hx ho hk vs ks fk ue,
+  std_56_dict d R m ms -> PREP opw = Some p ->
+  lenN vs = 8 -> lenN ks = 8 -> lenN fk = 32 ->
+  lenN (d_u d) = 48 -> d_ue d = Some ue -> lenN ue mod 16 = 0 ->
+  hash56 SHA256 SHA384 SHA512 AESE R fuel (pw56 p) (vsalt (d_u d)) [] = Some hx -> hx <> take 32 (d_u d) ->
+  hash56 SHA256 SHA384 SHA512 AESE R fuel (pw56 p) vs (d_u d) = Some ho ->
+  hash56 SHA256 SHA384 SHA512 AESE R fuel (pw56 p) ks (d_u d) = Some hk ->
+  d_o d = alg9_O ho vs ks -> d_oe d = Some (alg9_OE AESE hk fk) ->
+  opens_with (from_password (fun x => Ok (MD5 x)) (fun x => Ok (SHA256 x)) (fun x => Ok (SHA384 x)) (fun x => Ok (SHA512 x))
+                (fun k iv x => Ok (AESE k iv x)) (fun k iv x => Ok (AESD k iv x)) (fun x => Ok (PREP x)) fuel d id0 opw)
+             32 fk m ms (em_of d).
+Check C06_wrong_pw_56 : forall MD5 SHA256 SHA384 SHA512 AESE AESD PREP, (forall x, length (SHA256 x) = 32%nat) ->
+  forall fuel d id0 pw R m ms ue oe,
+  std_56_dict d R m ms -> lenN (d_u d) = 48 -> lenN (d_o d) = 48 ->
+  d_ue d = Some ue -> d_oe d = Some oe -> lenN ue mod 16 = 0 -> lenN oe mod 16 = 0 ->
+  (PREP pw = None \/
+   exists p, PREP pw = Some p /\
+     alg2a_user SHA256 SHA384 SHA512 AESE AESD R fuel (pw56 p) (d_u d) ue = Some None /\
+     alg2a_owner SHA256 SHA384 SHA512 AESE AESD R fuel (pw56 p) (d_o d) (d_u d) oe = Some None) ->
+  from_password (fun x => Ok (MD5 x)) (fun x => Ok (SHA256 x)) (fun x => Ok (SHA384 x)) (fun x => Ok (SHA512 x))
+                (fun k iv x => Ok (AESE k iv x)) (fun k iv x => Ok (AESD k iv x)) (fun x => Ok (PREP x)) fuel d id0 pw
+  = Err E_INVALID_PASSWORD.
+Check C06_accepted_iff_56 : forall MD5 SHA256 SHA384 SHA512 AESE AESD PREP, (forall x, length (SHA256 x) = 32%nat) ->
+  forall fuel d id0 pw p R m ms ue oe ru ro,
+  std_56_dict d R m ms -> PREP pw = Some p -> lenN (d_u d) = 48 -> lenN (d_o d) = 48 ->
+  d_ue d = Some ue -> d_oe d = Some oe -> lenN ue mod 16 = 0 -> lenN oe mod 16 = 0 ->
+  alg2a_user SHA256 SHA384 SHA512 AESE AESD R fuel (pw56 p) (d_u d) ue = Some ru ->
+  alg2a_owner SHA256 SHA384 SHA512 AESE AESD R fuel (pw56 p) (d_o d) (d_u d) oe = Some ro ->
+  ((exists dc, from_password (fun x => Ok (MD5 x)) (fun x => Ok (SHA256 x)) (fun x => Ok (SHA384 x)) (fun x => Ok (SHA512 x))
+                (fun k iv x => Ok (AESE k iv x)) (fun k iv x => Ok (AESD k iv x)) (fun x => Ok (PREP x)) fuel d id0 pw = Ok dc) <->
+   (exists k, lenN k = 32 /\ (ru = Some k \/ (ru = None /\ ro = Some k)))).
+Check C06_no_panic : forall MD5 SHA256 SHA384 SHA512 AESE AESD PREP, (forall x, length (MD5 x) = 16%nat) ->
+  forall fuel d id0 pass s,
+  from_password (fun x => Ok (MD5 x)) (fun x => Ok (SHA256 x)) (fun x => Ok (SHA384 x)) (fun x => Ok (SHA512 x))
+                (fun k iv x => Ok (AESE k iv x)) (fun k iv x => Ok (AESD k iv x)) (fun x => Ok (PREP x)) fuel d id0 pass
+  <> Panic s.
+Check C06_decrypt_no_panic : forall MD5 SHA256 SHA384 SHA512 AESE AESD PREP, (forall x, length (MD5 x) = 16%nat) ->
+  forall fuel d id0 pass enc meta dc num gen data s,
+  load_decoder (fun x => Ok (MD5 x)) (fun x => Ok (SHA256 x)) (fun x => Ok (SHA384 x)) (fun x => Ok (SHA512 x))
+                (fun k iv x => Ok (AESE k iv x)) (fun k iv x => Ok (AESD k iv x)) (fun x => Ok (PREP x)) fuel d id0 pass enc meta = Ok dc ->
+  decrypt (fun x => Ok (MD5 x)) (fun k iv x => Ok (AESD k iv x)) dc num gen data <> Panic s /\
+  ctx_decrypt (fun x => Ok (MD5 x)) (fun k iv x => Ok (AESD k iv x)) (Some dc) num gen data <> Panic s.
+Check C06_plaintext : forall MD5 AESE AESD, (forall x, length (MD5 x) = 16%nat) ->
+  (forall k iv x, lenN x mod 16 = 0 -> AESD k iv (AESE k iv x) = x) -> (forall k iv x, lenN (AESE k iv x) = lenN x) ->
+  forall dc fk m ms num gen iv data, decoder_for dc fk m ms -> lenN iv = 16 ->
+  decrypt (fun x => Ok (MD5 x)) (fun k iv x => Ok (AESD k iv x)) dc num gen
+    (protect_bytes MD5 AESE m fk (k_enc_obj dc) (k_meta_obj dc) (negb (k_em dc)) num gen iv data) = Ok data.
+Check C06_plaintext_string : forall MD5 AESE AESD, (forall x, length (MD5 x) = 16%nat) ->
+  (forall k iv x, lenN x mod 16 = 0 -> AESD k iv (AESE k iv x) = x) -> (forall k iv x, lenN (AESE k iv x) = lenN x) ->
+  forall dc fk m ms num gen iv s, decoder_for dc fk m ms -> lenN iv = 16 ->
+  ctx_decrypt (fun x => Ok (MD5 x)) (fun k iv x => Ok (AESD k iv x)) (Some dc) num gen
+    (protect_bytes MD5 AESE ms fk (k_enc_obj dc) (k_meta_obj dc) (negb (k_em dc)) num gen iv s) = Ok s.
+Check C06_plaintext_decode : forall MD5 AESE AESD, (forall x, length (MD5 x) = 16%nat) ->
+  (forall k iv x, lenN x mod 16 = 0 -> AESD k iv (AESE k iv x) = x) -> (forall k iv x, lenN (AESE k iv x) = lenN x) ->
+  forall filters dc fk m ms num gen iv data, decoder_for dc fk m ms -> lenN iv = 16 ->
+  storage_decode (fun x => Ok (MD5 x)) (fun k iv x => Ok (AESD k iv x)) filters (Some dc) num gen
+    (protect_bytes MD5 AESE m fk (k_enc_obj dc) (k_meta_obj dc) (negb (k_em dc)) num gen iv data) = filters data.
+Check C06_open_user_rc4_reads : forall MD5 SHA256 SHA384 SHA512 AESE AESD PREP, (forall x, length (MD5 x) = 16%nat) ->
+  (forall k iv x, lenN x mod 16 = 0 -> AESD k iv (AESE k iv x) = x) -> (forall k iv x, lenN (AESE k iv x) = lenN x) ->
+  forall fuel d id0 upw R n m ms tail, std_rc4_dict d R n m ms -> meth_fits n m -> meth_fits n ms ->
+  let fk := alg2 MD5 R n upw (d_o d) (d_p d) id0 (d_em d) in
+  d_u d = u_entry MD5 R fk id0 tail ->
+  exists dc, from_password (fun x => Ok (MD5 x)) (fun x => Ok (SHA256 x)) (fun x => Ok (SHA384 x)) (fun x => Ok (SHA512 x))
+                (fun k iv x => Ok (AESE k iv x)) (fun k iv x => Ok (AESD k iv x)) (fun x => Ok (PREP x)) fuel d id0 upw = Ok dc /\
+    forall enc meta num gen iv data, lenN iv = 16 ->
+      let dc' := install dc enc meta in
+      decrypt (fun x => Ok (MD5 x)) (fun k iv x => Ok (AESD k iv x)) dc' num gen (protect_bytes MD5 AESE m fk enc meta (negb (k_em dc)) num gen iv data) = Ok data /\
+      ctx_decrypt (fun x => Ok (MD5 x)) (fun k iv x => Ok (AESD k iv x)) (Some dc') num gen (protect_bytes MD5 AESE ms fk enc meta (negb (k_em dc)) num gen iv data) = Ok data.
+Check C06_open_user_56_key : forall MD5 SHA256 SHA384 SHA512 AESE AESD PREP,
+  (forall x, length (SHA256 x) = 32%nat) -> (forall x, length (SHA384 x) = 48%nat) -> (forall x, length (SHA512 x) = 64%nat) ->
+  (forall k iv x, lenN x mod 16 = 0 -> AESD k iv (AESE k iv x) = x) -> (forall k iv x, lenN (AESE k iv x) = lenN x) ->
+  forall fuel d id0 upw p R m ms hv hk vs ks fk oe,
+  std_56_dict d R m ms -> PREP upw = Some p ->
+  lenN vs = 8 -> lenN ks = 8 -> lenN fk = 32 ->
+  hash56 SHA256 SHA384 SHA512 AESE R fuel (pw56 p) vs [] = Some hv ->
+  hash56 SHA256 SHA384 SHA512 AESE R fuel (pw56 p) ks [] = Some hk ->
+  d_u d = alg8_U hv vs ks -> d_ue d = Some (alg8_UE AESE hk fk) ->
+  lenN (d_o d) = 48 -> d_oe d = Some oe -> lenN oe mod 16 = 0 ->
+  from_password (fun x => Ok (MD5 x)) (fun x => Ok (SHA256 x)) (fun x => Ok (SHA384 x)) (fun x => Ok (SHA512 x))
+                (fun k iv x => Ok (AESE k iv x)) (fun k iv x => Ok (AESD k iv x)) (fun x => Ok (PREP x)) fuel d id0 upw
+  = Ok (decoder_with fk 32 m ms (em_of d)).
+Check C06_open_owner_56_key : forall MD5 SHA256 SHA384 SHA512 AESE AESD PREP,
+  (forall x, length (SHA256 x) = 32%nat) -> (forall x, length (SHA384 x) = 48%nat) -> (forall x, length (SHA512 x) = 64%nat) ->
+  (forall k iv x, lenN x mod 16 = 0 -> AESD k iv (AESE k iv x) = x) -> (forall k iv x, lenN (AESE k iv x) = lenN x) ->
+  forall fuel d id0 opw p R m ms hx ho hk vs ks fk ue,
+  std_56_dict d R m ms -> PREP opw = Some p ->
+  lenN vs = 8 -> lenN ks = 8 -> lenN fk = 32 ->
+  lenN (d_u d) = 48 -> d_ue d = Some ue -> lenN ue mod 16 = 0 ->
+  hash56 SHA256 SHA384 SHA512 AESE R fuel (pw56 p) (vsalt (d_u d)) [] = Some hx -> hx <> take 32 (d_u d) ->
+  hash56 SHA256 SHA384 SHA512 AESE R fuel (pw56 p) vs (d_u d) = Some ho ->
+  hash56 SHA256 SHA384 SHA512 AESE R fuel (pw56 p) ks (d_u d) = Some hk ->
+  d_o d = alg9_O ho vs ks -> d_oe d = Some (alg9_OE AESE hk fk) ->
+  from_password (fun x => Ok (MD5 x)) (fun x => Ok (SHA256 x)) (fun x => Ok (SHA384 x)) (fun x => Ok (SHA512 x))
+                (fun k iv x => Ok (AESE k iv x)) (fun k iv x => Ok (AESD k iv x)) (fun x => Ok (PREP x)) fuel d id0 opw
+  = Ok (decoder_with fk 32 m ms (em_of d)).
+Check C06_opened_56_reads : forall MD5 AESE AESD, (forall k iv x, lenN x mod 16 = 0 -> AESD k iv (AESE k iv x) = x) -> (forall k iv x, lenN (AESE k iv x) = lenN x) ->
+  (forall x, length (MD5 x) = 16%nat) ->
+  forall r fk m ms em, r = Ok (decoder_with fk 32 m ms em) -> lenN fk = 32 -> meth_fits 32 m -> meth_fits 32 ms ->
+  exists dc, r = Ok dc /\
+    forall enc meta num gen iv data, lenN iv = 16 ->
+      let dc' := install dc enc meta in
+      decrypt (fun x => Ok (MD5 x)) (fun k iv x => Ok (AESD k iv x)) dc' num gen (protect_bytes MD5 AESE m fk enc meta (negb (k_em dc)) num gen iv data) = Ok data /\
+      ctx_decrypt (fun x => Ok (MD5 x)) (fun k iv x => Ok (AESD k iv x)) (Some dc') num gen (protect_bytes MD5 AESE ms fk enc meta (negb (k_em dc)) num gen iv data) = Ok data.
+Check C06_exempt : forall MD5 AESD dc enc meta data,
+  (forall num gen, enc = Some (num, gen) ->
+     decrypt (fun x => Ok (MD5 x)) (fun k iv x => Ok (AESD k iv x)) (install dc enc meta) num gen data = Ok data /\
+     decrypt_string (fun x => Ok (MD5 x)) (fun k iv x => Ok (AESD k iv x)) (install dc enc meta) num gen data = Ok data) /\
+  (forall num gen, meta = Some (num, gen) -> k_em dc = false ->
+     decrypt (fun x => Ok (MD5 x)) (fun k iv x => Ok (AESD k iv x)) (install dc enc meta) num gen data = Ok data /\
+     decrypt_string (fun x => Ok (MD5 x)) (fun k iv x => Ok (AESD k iv x)) (install dc enc meta) num gen data = Ok data).
+Check C06_full : forall MD5 AESE AESD, (forall x, length (MD5 x) = 16%nat) ->
+  (forall k iv x, lenN x mod 16 = 0 -> AESD k iv (AESE k iv x) = x) -> (forall k iv x, lenN (AESE k iv x) = lenN x) ->
+  forall dc fk m ms num gen iv data, decoder_for dc fk m ms -> lenN iv = 16 ->
+  (* a stream of object (num, gen), stored under /StmF's method, read through Storage::decode's Decoder::decrypt *)
+  decrypt (fun x => Ok (MD5 x)) (fun k iv x => Ok (AESD k iv x)) dc num gen
+    (protect_bytes MD5 AESE m fk (k_enc_obj dc) (k_meta_obj dc) (negb (k_em dc)) num gen iv data) = Ok data /\
+  (* a string of object (num, gen), stored under /StrF's method, read through the parser's Context::decrypt *)
+  ctx_decrypt (fun x => Ok (MD5 x)) (fun k iv x => Ok (AESD k iv x)) (Some dc) num gen
+    (protect_bytes MD5 AESE ms fk (k_enc_obj dc) (k_meta_obj dc) (negb (k_em dc)) num gen iv data) = Ok data.
